@@ -13,7 +13,9 @@ TYPE_CHECKER_LIBRARIES = ["mypy", "pyright"]
 
 
 def added_line_nums_strategy(lines, i):
-    return lines[i]
+    # an inline `dependencies = [...]` array changes a single line however many
+    # dependencies are added to it
+    return lines[min(i, len(lines) - 1)]
 
 
 class PyprojectWriter(DependencyWriter):
@@ -40,6 +42,12 @@ class PyprojectWriter(DependencyWriter):
         diff, added_line_nums = create_diff_and_linenums(
             tomlkit.dumps(original).split("\n"), tomlkit.dumps(pyproject).split("\n")
         )
+
+        if not added_line_nums:
+            # Nothing was added: every package is already a key of the poetry table
+            # (possibly with a version the parser could not read, e.g. `"~0.7"`)
+            logger.debug("No dependencies added to pyproject.toml file.")
+            return None
 
         if not dry_run:
             with open(self.path, "w", encoding="utf-8") as f:
